@@ -1512,9 +1512,39 @@ pub fn run_backend_opts(case: &MapCase, backend: Backend, enabled: u32, signals:
     BackendRun { results: ctx.results, fail, labels: ctx.labels, shape: ctx.shape, nontrivial: ctx.nontrivial, steps_done: ctx.step, final_tables, first_skip: ctx.first_skip }
 }
 
+/// access to the mapper's own view of its level-4 table
+pub trait Level4 {
+    fn l4(&self) -> &PageTable;
+    fn l4_mut(&mut self) -> &mut PageTable;
+}
+impl<'a> Level4 for MappedPageTable<'a, LogMapping> {
+    fn l4(&self) -> &PageTable {
+        self.level_4_table()
+    }
+    fn l4_mut(&mut self) -> &mut PageTable {
+        self.level_4_table_mut()
+    }
+}
+impl<'a> Level4 for OffsetPageTable<'a> {
+    fn l4(&self) -> &PageTable {
+        self.level_4_table()
+    }
+    fn l4_mut(&mut self) -> &mut PageTable {
+        self.level_4_table_mut()
+    }
+}
+impl<'a> Level4 for RecursivePageTable<'a> {
+    fn l4(&self) -> &PageTable {
+        self.level_4_table()
+    }
+    fn l4_mut(&mut self) -> &mut PageTable {
+        self.level_4_table_mut()
+    }
+}
+
 fn run_ops<M>(ctx: &mut Ctx, mp: &mut M, case: &MapCase, enabled: u32) -> Option<Fail>
 where
-    M: Mapper<Size4KiB> + Mapper<Size2MiB> + Mapper<Size1GiB> + Translate + CleanUp,
+    M: Mapper<Size4KiB> + Mapper<Size2MiB> + Mapper<Size1GiB> + Translate + CleanUp + Level4,
 {
     let mut had_huge_map = false;
     for (i, op) in case.ops.iter().enumerate() {
@@ -1540,6 +1570,23 @@ where
     ctx.step = case.ops.len();
     if let Err(f) = probe_step(ctx, mp, 0, true) {
         return Some(f);
+    }
+    // the mapper's own accessors show the level-4 table the history dictates
+    {
+        mem().flush_tlb();
+        let want = ctx.model.root.render();
+        let a = mp.l4() as *const PageTable as *const u64;
+        let b = mp.l4_mut() as *mut PageTable as *const u64;
+        if a != b {
+            return Some(Fail { tag: T_C01, msg: format!("({:?}) level_4_table() and level_4_table_mut() return different tables", ctx.backend) });
+        }
+        for i in 0..512 {
+            let got = unsafe { core::ptr::read_volatile(a.add(i)) };
+            if got != want[i] {
+                return Some(Fail { tag: T_C01, msg: format!("({:?}) level_4_table()[{}] = {:#x}, the history dictates {:#x}", ctx.backend, i, got, want[i]) });
+            }
+        }
+        mem().log.clear();
     }
     let _ = enabled;
     None
